@@ -9,6 +9,8 @@ usage: c12_replay.py <command>      (JSON payload on stdin where needed; the las
   policy           payload {trials, inc, m, keep_alive}: real PartiallySerializableDesignerPolicy.suggest with a recording designer
   designer_policy  payload {trials}: real DesignerPolicy.suggest with a recording designer
   get_trials       payload {impl: inram|service, trials, args: {trial_ids, min_trial_id, max_trial_id, status_matches}}
+  history_search   payload {seed, random, max_len}: scripted + seeded random histories (suggest / complete feasible|infeasible out of
+                   order / delete ACTIVE) through the real service with a recording designer; oracle from the property text
   trial_filter     payload {ids, min_id, max_id, status, trial: [id, status]}
 """
 import json
@@ -145,6 +147,131 @@ def cmd_history(p):
          'reproduced': new_id == 3 and not got})
 
 
+def _service_harness(keep_alive=False):
+    """real VizierServicer (RAM) + PythiaServicer with a PolicyFactory that hosts a recording designer"""
+    from vizier import pythia
+    from vizier._src.algorithms.policies import designer_policy as dp
+    from vizier._src.service import pythia_service, study_pb2, vizier_service, vizier_service_pb2 as vs
+    from vizier.service import pyvizier as svz
+    log = []
+    Rec = _recording_designer(log)
+    cache = {}
+
+    class Factory(pythia.PolicyFactory):
+        def __call__(self, problem_statement, algorithm, policy_supporter, study_name):
+            if keep_alive and 'p' in cache:
+                return cache['p']
+            cache['p'] = dp.PartiallySerializableDesignerPolicy(problem_statement, policy_supporter, Rec)
+            return cache['p']
+
+    svc = vizier_service.VizierServicer(database_url=None)
+    svc.default_pythia_service = pythia_service.PythiaServicer(svc, Factory())
+    sc = svz.StudyConfig(algorithm='RANDOM_SEARCH')
+    sc.search_space.root.add_float_param('x', 0.0, 1.0)
+    sc.metric_information.append(svz.MetricInformation(name='m', goal=svz.ObjectiveMetricGoal.MAXIMIZE))
+    st = svc.CreateStudy(vs.CreateStudyRequest(parent='owners/o', study=study_pb2.Study(display_name='s', study_spec=sc.to_proto())))
+    return svc, st.name, log
+
+
+def _run_history(ops, keep_alive=False):
+    """ops: ['suggest', k] | ['complete', pos, feasible] | ['delete_active', pos]   (pos indexes the ACTIVE trials, oldest first).
+    Never deletes a completed trial (that is the class of finding 13).  Oracle, from the property text: every Designer.update gets
+    exactly the ACTIVE trials and exactly the COMPLETED trials not given before; at the end every completed trial was given once."""
+    from vizier._src.service import study_pb2, vizier_service_pb2 as vs
+    svc, name, log = _service_harness(keep_alive)
+    delivered = {}
+    violations, trace = [], []
+    nclient = [0]
+
+    def listing():
+        ts = svc.ListTrials(vs.ListTrialsRequest(parent=name)).trials
+        comp = sorted(int(t.id) for t in ts if t.state in (study_pb2.Trial.SUCCEEDED, study_pb2.Trial.INFEASIBLE))
+        act = sorted(int(t.id) for t in ts if t.state == study_pb2.Trial.ACTIVE)
+        return comp, act
+
+    def suggest(k):
+        comp, act = listing()
+        before = len(log)
+        nclient[0] += 1
+        op = svc.SuggestTrials(vs.SuggestTrialsRequest(parent=name, suggestion_count=k, client_id='w%d' % nclient[0]))
+        trace.append(['suggest', k, op.error.message[:60]])
+        for u in log[before:]:
+            got = sorted(c[0] for c in u['completed'])
+            want = sorted(i for i in comp if i not in delivered)
+            if got != want:
+                violations.append({'step': len(trace), 'clause': 'completed', 'update_completed': got, 'expected': want, 'completed_now': comp, 'given_before': sorted(delivered)})
+            if sorted(a[0] for a in u['active']) != act:
+                violations.append({'step': len(trace), 'clause': 'active', 'update_active': sorted(a[0] for a in u['active']), 'expected': act})
+            for i in got:
+                delivered[i] = delivered.get(i, 0) + 1
+
+    for o in ops:
+        if o[0] == 'suggest':
+            suggest(o[1])
+        else:
+            comp, act = listing()
+            if not act:
+                continue
+            tid = act[o[1] % len(act)]
+            if o[0] == 'complete':
+                if o[2]:
+                    svc.CompleteTrial(vs.CompleteTrialRequest(name='%s/trials/%d' % (name, tid),
+                                                              final_measurement=study_pb2.Measurement(metrics=[study_pb2.Measurement.Metric(metric_id='m', value=1.0)])))
+                else:
+                    svc.CompleteTrial(vs.CompleteTrialRequest(name='%s/trials/%d' % (name, tid), trial_infeasible=True, infeasible_reason='no'))
+                trace.append(['complete', tid, bool(o[2])])
+            else:
+                svc.DeleteTrial(vs.DeleteTrialRequest(name='%s/trials/%d' % (name, tid)))
+                trace.append(['delete_active', tid])
+    suggest(1)
+    suggest(1)
+    comp, act = listing()
+    for i in comp:
+        if delivered.get(i, 0) != 1:
+            violations.append({'step': 'end', 'clause': 'exactly_once', 'trial': i, 'times_given': delivered.get(i, 0)})
+    return violations, trace
+
+
+def cmd_history_search(p):
+    """bounded native search: scripted + seeded random histories through the real service, outside the class of finding 13."""
+    import random
+    scripted = [
+        [['suggest', 2], ['complete', 1, True], ['suggest', 1], ['delete_active', 1], ['complete', 0, True], ['suggest', 1]],      # out-of-order completion
+        [['suggest', 2], ['complete', 0, False], ['suggest', 1], ['complete', 0, True], ['suggest', 1]],                          # infeasible completion
+        [['suggest', 3], ['complete', 2, True], ['complete', 0, False], ['suggest', 2], ['complete', 0, True], ['suggest', 1]],
+        [['suggest', 1], ['delete_active', 0], ['suggest', 2], ['complete', 1, True], ['suggest', 1], ['complete', 0, True]],      # id of a deleted ACTIVE trial re-used
+    ]
+    rnd = random.Random(int(p.get('seed', 12)))
+    hist = list(scripted)
+    for _ in range(int(p.get('random', 24))):
+        h = []
+        for _ in range(rnd.randint(3, int(p.get('max_len', 8)))):
+            r = rnd.random()
+            if r < 0.4:
+                h.append(['suggest', rnd.randint(1, 3)])
+            elif r < 0.85:
+                h.append(['complete', rnd.randint(0, 3), rnd.random() < 0.7])
+            else:
+                h.append(['delete_active', rnd.randint(0, 3)])
+        hist.append(h)
+    bad = []
+    n = 0
+    for keep_alive in (False, True):
+        for h in hist:
+            n += 1
+            try:
+                v, trace = _run_history(h, keep_alive)
+            except BaseException as e:  # noqa
+                v, trace = [{'clause': 'exception', 'exception': '%s: %s' % (type(e).__name__, str(e)[:200])}], h
+            if v:
+                bad.append({'policy_kept_alive': keep_alive, 'ops': h, 'trace': trace, 'violations': v[:3]})
+                if len(bad) >= 3:
+                    break
+        if len(bad) >= 3:
+            break
+    out({'histories': n, 'failing': bad, 'reproduced': bool(bad)})
+
+
 def _spec_new(trials, inc, m):
     return [tid for tid, st in trials if st == 'COMPLETED' and 1 <= tid <= m and tid not in inc]
 
@@ -263,13 +390,18 @@ def cmd_get_trials(p):
         sc.metric_information.append(svz.MetricInformation(name='m', goal=svz.ObjectiveMetricGoal.MAXIMIZE))
         st = svc.CreateStudy(vs.CreateStudyRequest(parent='owners/o', study=study_pb2.Study(display_name='s', study_spec=sc.to_proto())))
         state = {'COMPLETED': study_pb2.Trial.SUCCEEDED, 'ACTIVE': study_pb2.Trial.ACTIVE, 'REQUESTED': study_pb2.Trial.REQUESTED, 'STOPPING': study_pb2.Trial.STOPPING}
+        given = dict(zip([tid for tid, _ in trials], p.get('states') or []))
         for tid, stt in sorted(trials):
-            t = study_pb2.Trial(name='%s/trials/%d' % (st.name, tid), id=str(tid), state=state[stt])
+            pstate = getattr(study_pb2.Trial, given[tid]) if given.get(tid) in ('SUCCEEDED', 'INFEASIBLE') and stt == 'COMPLETED' else state[stt]
+            t = study_pb2.Trial(name='%s/trials/%d' % (st.name, tid), id=str(tid), state=pstate)
+            if pstate == study_pb2.Trial.INFEASIBLE:
+                t.infeasible_reason = 'infeasible'
             t.parameters.add(parameter_id='x').value.number_value = 0.5
             t.start_time.GetCurrentTime()
             if stt == 'COMPLETED':
                 t.end_time.GetCurrentTime()
-                t.final_measurement.metrics.add(metric_id='m', value=1.0)
+                if pstate != study_pb2.Trial.INFEASIBLE:
+                    t.final_measurement.metrics.add(metric_id='m', value=1.0)
             svc.datastore.create_trial(t)
         sup = sps.ServicePolicySupporter(st.name, svc)
         order = sorted(tid for tid, _ in trials)
